@@ -34,7 +34,14 @@ func goEnv() []string {
 	return env
 }
 
-func c08Root() string { return filepath.Join(mc.ScratchDir(), "c08") }
+// c08Root is below the per-run scratch directory of vcheck (removed by vcheck on exit); a
+// harness binary started by hand falls back to /var/tmp, never to /tmp.
+func c08Root() string {
+	if os.Getenv("VERIF_SCRATCH_DIR") == "" {
+		return "/var/tmp/verif-c08-scratch"
+	}
+	return filepath.Join(mc.ScratchDir(), "c08")
+}
 
 // ensureGombok builds gombok once per run from the tree under test (under a file lock, the
 // worker processes share the binary).
